@@ -293,3 +293,28 @@ PROPS["C13"] = {
     "assumptions": COMMON_ASSUME + ["the peer answers a detach in kind and an end with an end (a conforming peer); tokio mpsc channels are FIFO"],
     "design_ref": "DESIGN.md §7 C13",
 }
+
+PROPS["C17"] = {
+    "title": "Negotiated limits: channel-max and idle time-outs",
+    "module": "Theorems.C17",
+    "theorems": [
+        "Amqp.Limits.agreed_is_min",
+        "Amqp.Limits.channel_within_max",
+        "Amqp.Limits.run_inv",
+        "Amqp.Limits.run_len",
+        "Amqp.Limits.refused_only_when_full",
+        "Amqp.Limits.alloc_below_bound_succeeds",
+        "Amqp.Limits.heartbeat_period_lt_timeout",
+        "Amqp.Limits.next_beat_in_time",
+        "Amqp.Limits.no_heartbeat_without_timeout",
+        "Amqp.Limits.alive_while_frames_arrive",
+        "Amqp.Limits.expires_after_silence",
+    ],
+    "harness": ["limits"],
+    "gen_files": ["Amqp/Gen/LimitsKernels.lean"],
+    "technique": "Lean 4 proof: induction over begin/end histories on a slab model with the generated bound check; arithmetic of the generated heartbeat period; engine-level runs with virtual time against a scripted peer",
+    "level_text": "Machine-checked for every history of begins and ends and every pair of channel-max values: a session is only ever begun on a channel <= min(local, remote) (the comparison and the min are regenerated from connection/mod.rs), no key above the bound is ever created, and a begin is refused exactly when all channels 0..=channel-max carry a live session. For every advertised idle-time-out T > 0 the heartbeat period (regenerated from connection/engine.rs) is positive and strictly shorter than T, so after any instant the next frame follows strictly within T; none is sent for T = 0 / unset. The endpoint's own time-out is a delay re-armed by every arriving frame (transport/mod.rs), stated as such. Tied to the code by runs under a paused clock: begin/end histories compared line by line with the model and checked against min(local, remote) on the wire; the gaps between all frames an idle (and a sparsely active) client writes measured in virtual microseconds against the advertised T in {2 ms .. 60 s}; clients with their own time-out against a peer that sends in time (never torn down) and then falls silent (torn down after T, not before, reported as IdleTimeoutElapsed, advertising no more than it enforces).",
+    "level_note": "Trusted: Lean kernel; rs2lean; the slab model (shared with C11); tokio's paused-clock timer as a stand-in for wall time (1 ms wheel granularity: heartbeat instants are rounded up to the millisecond, the mean period is what is compared). Not modelled: the listener side's channel allocation for remotely begun sessions (exercised by C18/C19 runs), scheduling latency of a loaded runtime (the reason the period has to be strictly shorter than T).",
+    "assumptions": COMMON_ASSUME + ["timers fire when due (no scheduling latency beyond the timer wheel's millisecond granularity)"],
+    "design_ref": "DESIGN.md §7 C17",
+}
